@@ -91,19 +91,6 @@ theorem execJmps_cons_goto {env : Env} {σ σ₂ : State} {c c₂ : Nat} {j : Te
       left; simp only [JmpGoes, hj]; exact ⟨h.2.1, h.2.2.1.symm, h.2.2.2.symm⟩
   · split at h <;> cases h
 
-theorem jmpsWithUntaken_of_le_two {b : Term Blk} (hlen : b.term.jmps.length ≤ 2) :
-    jmpsWithUntaken b = match b.term.jmps with
-      | [] => []
-      | [j] => [(j.term, none)]
-      | [j₁, j₂] => [(j₁.term, none), (j₂.term, some j₁.term)]
-      | _ => [] := by
-  unfold jmpsWithUntaken
-  match hj : b.term.jmps, hlen with
-  | [], _ => rfl
-  | [j], _ => rfl
-  | [j₁, j₂], _ => rfl
-  | _ :: _ :: _ :: _, h => simp at h
-
 /-- the jump through which a block with at most two jumps continues at `t` is one of the jumps the CFG
 construction looks at (`jmpsWithUntaken`) -/
 theorem execJmps_goto_inv {env : Env} {σ σ₂ : State} {c c₂ : Nat} {b : Term Blk} {evs : List Event} {t : Tid}
